@@ -69,7 +69,8 @@ for _pid, _q, _t in (('C01', 6000, 60000), ('C06', 6000, 60000), ('C07', 6000, 6
                      ('C19', 6000, 60000), ('C04', 4000, 40000), ('C10', 3000, 30000), ('C11', 3000, 30000),
                      ('C13', 2000, 20000), ('C14', 2000, 20000), ('C15', 4000, 40000), ('C16', 3000, 30000),
                      ('C18', 4000, 40000)):
-    reg(Prop(_pid, {'quick': _q, 'thorough': _t}, {'quick': 100, 'thorough': 1500}, RULE_HIST, nontrivial=nt_structure))
+    reg(Prop(_pid, {'quick': _q, 'thorough': _t}, {'quick': 100, 'thorough': 1500}, RULE_HIST, nontrivial=nt_structure,
+             cfg={'thorough': {'all_attrs': True}} if _pid == 'C04' else None))
 
 
 def _c17_extra(prop, tier, seed, agg):
